@@ -224,6 +224,15 @@ def execute(case):
                 # the property exists in no stacked list (e.g. bpm on a notes-only stack)
                 out["steps"].append({"t": "keyerror", "op": o, "exc": str(e)[:60]})
                 continue
+            except (ValueError, TypeError) as e:
+                # same situation on a stack of empty lists only: pandas raises these instead of KeyError
+                sf = _stacked_frame(stack, m)
+                wanted = [o["key"]] if o["op"] == "assign" else o["cols"]
+                have = {c for k in mem for c in m.objs[k].df.columns}
+                if len(sf) == 0 and any(c not in have for c in wanted) and _snap(m, it) == before:
+                    out["steps"].append({"t": "keyerror", "op": o, "exc": str(e)[:60]})
+                    continue
+                raise
             after = _snap(m, it)
             out["steps"].append({"t": "step", "members": mem, "before": before, "rows_b": rows_b, "op": rec, "after": after,
                                  "rows_a": _stack_rows(stack, it),
